@@ -137,7 +137,8 @@ def judge_case(src, scripts, tier, configs=impl.CONFIGS):
             'modules': set(), 'ops': set(), 'outcomes': set(), 'with_boundaries': 0,
             'unmodelled': 0, 'gosub_bound_hits': 0, 'return_without_gosub': 0,
             'handler_roots': 0, 'dispatches': 0, 'horizon_runs': 0, 'unspecified_runs': 0,
-            'verdicts': set(), 'branching_modules': 0, 'host_exc_other': 0}
+            'verdicts': set(), 'branching_modules': 0, 'host_exc_other': 0,
+            'ret_drops_gosub': 0, 'ret_with_gosub_ok': 0}
 
     def add(part, kind, op, cfg, detail, script=None, **extra):
         f = findings.setdefault((part, kind, op), {'configs': [], 'detail': detail,
@@ -181,7 +182,7 @@ def judge_case(src, scripts, tier, configs=impl.CONFIGS):
             info['with_boundaries'] += 1
         if m.ops_seen & {'jz', 'call'}:
             info['branching_modules'] += 1
-        for k in ('gosub_bound_hits', 'return_without_gosub', 'handler_roots'):
+        for k in ('gosub_bound_hits', 'return_without_gosub', 'handler_roots', 'ret_drops_gosub'):
             info[k] += m.stats[k]
         for v in m.viol:
             extra = {k: v[k] for k in v if k not in ('kind', 'pc', 'op', 'detail')}
@@ -194,6 +195,7 @@ def judge_case(src, scripts, tier, configs=impl.CONFIGS):
             info['stmt_checks'] += mo.stmt_checks
             info['store_checks'] += mo.store_checks
             info['dispatches'] += mo.dispatches
+            info['ret_with_gosub_ok'] += mo.ret_with_gosub_ok
             info['outcomes'].add((out.end, out.trap, out.exc))
             if out.end == 'horizon':
                 info['horizon_runs'] += 1
@@ -261,6 +263,7 @@ def eval_chunk(chunk, tier):
           'error_dispatches': 0, 'horizon_runs': 0, 'unspecified_runs': 0,
           'mixed_verdict_programs': 0, 'branching_modules': 0,
           'host_exceptions_outside_property': 0,
+          'abstract_returns_dropping_gosubs': 0, 'concrete_returns_dropping_gosubs_checked': 0,
           'distinct_modules': set(), 'ops_explored': set(), 'outcomes': set(),
           'per_family': {}}
     for fam, tag, src, scripts in chunk:
@@ -294,6 +297,8 @@ def eval_chunk(chunk, tier):
         st['unspecified_runs'] += info['unspecified_runs']
         st['branching_modules'] += info['branching_modules']
         st['host_exceptions_outside_property'] += info['host_exc_other']
+        st['abstract_returns_dropping_gosubs'] += info['ret_drops_gosub']
+        st['concrete_returns_dropping_gosubs_checked'] += info['ret_with_gosub_ok']
         st['distinct_modules'] |= info['modules']
         st['ops_explored'] |= info['ops']
         st['outcomes'] |= info['outcomes']
